@@ -9,6 +9,8 @@ import re
 from core import Check, site
 from mirlib import Fn, MustFacts, Sem
 from c29 import expr_mentions, mentions_arg, mentions_call
+import flow
+import c04
 
 RULE = (
     "R1 inside veryl_cache every call that creates, modifies or deletes a file is one of the frozen (function, callee) "
@@ -21,7 +23,12 @@ RULE = (
     "path.parent(), and Ok(()) is returned only on persist's Ok edge; R4 in Incremental::try_restore the value true is "
     "returned only under load()==Some, Fragment::from_bytes()==Ok and fragment_cache::restore()==Ok; Store::keep is "
     "called only on that edge; the restore-Err return has called Analyzer::drop_file and miss.insert; the load/decode "
-    "failure returns have called miss.insert."
+    "failure returns have called miss.insert. R5 commit order: in CmdBuild::exec / CmdCheck::exec no output-writing call is reachable "
+    "after Incremental::save (a crash while writing outputs then leaves no manifest that vouches for them). R6 output staleness: "
+    "Incremental::dst_is_stale answers `not stale` only by the comparison `mtime(path.src) > generated`, on paths where "
+    "build_info.generated_files.get(path.dst) is Some and path.dst.exists() is true (a lost info.toml record or a missing output is "
+    "stale), and in Incremental::open every path that leaves a file out of the miss set has entry.is_some_and(hash equal) true and, "
+    "unless consider_output is false or the file is an example, dst_is_stale false."
 )
 
 CRATES = ["veryl_cache", "veryl_path", "veryl"]
@@ -283,4 +290,129 @@ def run(world, tier, info, only=None):
         pv = tr.prov(t["args"][0])
         ck.ob("R4", "miss.insert-receiver", any(x[0] == "arg" and any(q[0] == "f" and q[1] == "miss" for q in x[2]) for x in pv),
               site(w.fns[trp], t["l"]), "the HashSet::insert on failure paths targets self.miss")
+    # ---------------- R5 commit order (shared with C04 R4) ------------------------------------------------
+    c04.commit_order(ck, w, "R5")
+    # ---------------- R6 output staleness -------------------------------------------------------------------
+    DS = "veryl::incremental::Incremental::dst_is_stale"
+    OP = "veryl::incremental::Incremental::open"
+    for p in (DS, OP):
+        if p not in w.fns:
+            ck.missing("R6", p)
+    if DS in w.fns:
+        sd = w.fns[DS]
+        f = Fn(w.mir(DS))
+        an = {f.name(i): i for i in range(1, f.nargs + 1)}
+        try:
+            paths = flow.enumerate_paths(f, 0, f.returns())
+        except OverflowError:
+            paths = None
+        if paths is None:
+            ck.ob("R6", "dst_is_stale/paths", None, site(sd), "too many paths to enumerate")
+        else:
+            n_cmp = 0
+            for k, path in enumerate(paths):
+                blocks = [b for b, _ in path]
+                # last definition of the return place along the path
+                val = None
+                for b in blocks:
+                    for st in f.blocks[b]["s"]:
+                        if st[0] == "=" and st[1] == [0, []]:
+                            rv = st[2]
+                            if rv[0] == "use" and rv[1][0] == "k" and "int" in rv[1][1]:
+                                val = ("const", str(rv[1][1]["int"]) not in ("0", "false"), st[3])
+                            else:
+                                val = ("other", None, st[3])
+                    t = f.blocks[b]["t"]
+                    if t["t"] == "call" and t["dst"] == [0, []]:
+                        val = ("call", t, t["l"])
+                fx = flow.path_facts(f, path)
+                has_rec = any(x[0] == "isvariant" and x[2] == "Some" and "generated_files" in repr(x[1]) and "'dst'" in repr(x[1]) for x in fx)
+                exists = any(x[0] == "call" and (x[1] or "").endswith("Path::exists") and x[2] is True and "'dst'" in repr(x[3]) for x in fx)
+                if val is None:
+                    ck.ob("R6", "dst_is_stale/path@%d" % (k + 1), None, site(sd), "return value not found on this path")
+                elif val[0] == "const" and val[1] is True:
+                    ck.ob("R6", "dst_is_stale/stale@%d" % (k + 1), True, site(sd, val[2]), "answers stale (the safe answer)")
+                elif val[0] == "const":
+                    ck.ob("R6", "dst_is_stale/fresh-without-comparison", False, site(sd, val[2]),
+                          "answers `not stale` without comparing the source's mtime with the recorded generation time "
+                          "(record present: %s, output exists: %s): an output nobody vouches for is trusted" % (has_rec, exists))
+                elif val[0] == "call" and re.search(r"PartialOrd(<.*>)?(>)?::gt$|cmp::PartialOrd::gt$", val[1].get("callee") or ""):
+                    n_cmp += 1
+                    t = val[1]
+                    ck.ob("R6", "dst_is_stale/compare-needs-record", has_rec, site(sd, val[2]), "the comparison is reached only when generated_files has a record for path.dst")
+                    ck.ob("R6", "dst_is_stale/compare-needs-output", exists, site(sd, val[2]), "the comparison is reached only when path.dst exists")
+                    p0 = f.prov(t["args"][0], depth=24)
+                    p1 = f.prov(t["args"][1], depth=24)
+                    ok0 = any(x[0] == "call" and (x[1] or "") == "std::fs::metadata" for x in p0) and any(x[0] == "arg" and any(q[0] == "f" and q[1] == "src" for q in x[2]) for x in p0)
+                    ok1 = any(x[0] == "call" and (x[1] or "").endswith("BTreeMap::<K, V, A>::get") for x in p1) or any(x[0] == "field" and x[-1] == "generated_files" for x in p1)
+                    ck.ob("R6", "dst_is_stale/compares-src-mtime", ok0, site(sd, val[2]), "left side is the modification time of path.src")
+                    ck.ob("R6", "dst_is_stale/compares-recorded-time", ok1, site(sd, val[2]), "right side is the recorded generation time of path.dst")
+                else:
+                    ck.ob("R6", "dst_is_stale/path@%d" % (k + 1), None, site(sd, val[2]), "return value computed by an unrecognised expression")
+            ck.floor("R6", "mtime comparisons in dst_is_stale", n_cmp, 1)
+    if OP in w.fns:
+        so = w.fns[OP]
+        f = Fn(w.mir(OP))
+        an = {f.name(i): i for i in range(1, f.nargs + 1)}
+        loops = []
+        for head, t, some, none, item in flow.loops_over(f):
+            r, pth = flow.access_path(f, t["args"][0])
+            if r == ("arg", an.get("paths")) and pth == ():
+                loops.append((head, t, some, none))
+        ck.floor("R6", "loops over `paths` in Incremental::open", len(loops), 1)
+        for head, t, some, none in loops[:1]:
+            ins = []
+            for bi, tt in f.calls(r"hash::set::HashSet::<T, S, A>::insert$|HashSet::<T, S>::insert$"):
+                nm = _ref_local_name(f, tt["args"][0])
+                if nm == "miss":
+                    ins.append(bi)
+            ck.floor("R6", "miss.insert calls in the loop", len([b for b in ins if b in f.reach_from(some, avoid=[head])]), 1)
+            try:
+                paths = flow.enumerate_paths(f, some, [head], avoid=ins)
+            except OverflowError:
+                paths = None
+            if paths is None:
+                ck.ob("R6", "open/hit-paths", None, site(so), "too many paths to enumerate")
+            else:
+                bad_hash = bad_out = 0
+                for path in paths:
+                    fx = flow.path_facts(f, path)
+                    hash_ok = any(x[0] == "call" and (x[1] or "").endswith("Option::<T>::is_some_and") and x[2] is True and "closure" in repr(x[3]) for x in fx)
+                    fresh = any(x[0] == "call" and x[1] == DS and x[2] is False for x in fx)
+                    no_out = any(x[0] == "flag" and x[2] is False and "consider_output" in repr(x[1]) for x in fx)
+                    example = any(x[0] == "flag" and x[2] is True and "'example'" in repr(x[1]) for x in fx)
+                    if not hash_ok:
+                        bad_hash += 1
+                    if not (fresh or no_out or example):
+                        bad_out += 1
+                ck.ob("R6", "open/hit-needs-entry-and-hash", bad_hash == 0 and bool(paths), site(so, t["l"]),
+                      "every path that keeps a file out of the miss set saw entry.is_some_and(hash equal, fragment present) == true (%d hit paths)" % len(paths)
+                      if bad_hash == 0 else "%d of %d hit paths skip the entry/hash test" % (bad_hash, len(paths)))
+                ck.ob("R6", "open/hit-needs-fresh-output", bad_out == 0 and bool(paths), site(so, t["l"]),
+                      "every hit path has dst_is_stale == false, or consider_output == false, or path.example" if bad_out == 0 else
+                      "%d of %d hit paths keep a file out of the miss set without asking dst_is_stale although outputs are considered" % (bad_out, len(paths)))
+                # the closure compares the stored hash with the hash of the text just read
+            for bi, tt in f.calls("^" + re.escape(DS) + "$"):
+                r, pth = flow.access_path(f, tt["args"][1])
+                ck.ob("R6", "open/staleness-of-this-file", r[0] == "call" and r[2] == head and pth[:2] == ("Some", "0"), site(so, tt["l"]), "dst_is_stale is asked about the file of this iteration")
     return ck.finish(info)
+
+
+def _ref_local_name(f, op):
+    if op[0] == "k":
+        return None
+    l = op[1][0]
+    for _ in range(6):
+        if f.name(l):
+            return f.name(l)
+        d = f.def_of(l)
+        if not d or d[0] != "s":
+            return None
+        rv = f.rvalue_at(d)
+        if rv[0] in ("ref", "ptr"):
+            l = rv[2][0]
+        elif rv[0] == "use" and rv[1][0] != "k":
+            l = rv[1][1][0]
+        else:
+            return None
+    return None
